@@ -49,6 +49,14 @@ def check(ctx):
     sites, n_auto = C01.evaluate_sites(ctx, F, reach, parent, C01.load_table())
     ctx.floor("R-REACH", "panic-capable sites in parser-reachable code", len(sites), 100)
 
+    # parser totality also needs bounded recursion: the drop/parse row of the recursion census belongs to this property too
+    for r in C01.load_table()["recursion"]:
+        if r["id"] == "ast-drop-and-parse":
+            if r["disposition"] == "finding":
+                ctx.violation("R-REACH", "recursion:" + r["id"], r["reason"], {})
+            else:
+                ctx.ok("R-REACH", "recursion:" + r["id"], r["reason"])
+
     # 2. parse result
     cl = [c for c in F.closures_of(parse) if c.id.count("{closure#") == 1]
     pc = None
